@@ -101,7 +101,17 @@ def rule_owned(facts, rep):
         for fld in ("parser", "capture"):
             e = f.get(fld, {})
             ok = ok and e.get("k") == "ref" and e.get("mut") and hir.place_str(e["e"]) == f"self.{fld}"
-        ok = ok and hir.is_local(f.get("bytes"), "bytes")
+        # ... and the slice it iterates is the caller's slice itself (through plain `let` renamings at most): trimming or skipping part
+        # of a chunk here (a prefix "cleaned up" once per call) makes the result depend on where the chunks are cut
+        src = hir.simp(f.get("bytes", {}))
+        R_ = hir.Resolver(b["hir"])
+        for _ in range(4):
+            nxt = hir.simp(R_.res(src)) if src.get("k") == "local" else src
+            if nxt is src:
+                break
+            src = nxt
+        pid = [p_.get("id") for p_ in b["params"] if p_.get("name") == "bytes"]
+        ok = ok and src.get("k") == "local" and src.get("id") in pid
     rep.check(ok, "owned-state", b["path"], "borrows-own-state-mutably", "", loc(b))
     # the only per-call reset: WinconCapture::reset assigns `ready` and nothing else
     r = facts.body("anstream", AD + "wincon::WinconCapture::reset")
